@@ -44,7 +44,7 @@ Inductive case :=
    2 ToNumber(string) accepts Go float/int syntax outside 9.3.1
    3 ToNumber(string) rejects hex literals >= 2^63
    7 ToString of a number held as a Go integer prints every integer digit (CIntStr)
-   11 String.prototype.lastIndexOf takes a NaN position as 0 and -Infinity as +Infinity
+   (11: String.prototype.lastIndexOf took a NaN position as 0 and -Infinity as +Infinity; repaired by ea386ab)
    9 ToString of a number held as a Go float32 prints float32-shortest digits (CPin)
    (10: c ? t : f yielded a Reference; repaired by /repo commit 07b2f1f, no longer produced)
    Classes 1 (ToInt32 family beyond 2^63), 4 (string < on UTF-8 bytes), 5 (a + b order),
@@ -54,18 +54,14 @@ Inductive case :=
 Definition overaccept (s : list Z) : numlit :=
   match string_to_number s with NLNaN => model_str2num s | r => r end.
 
-Definition hl : dialect := {|
-  d_int32 := m_to_int32; d_uint32 := m_to_uint32; d_uint16 := m_to_uint16; d_integer := m_to_integer; d_div := m_divide;
-  d_str2num := string_to_number; d_strlt := m_str_lt; d_otto_cmp := true; d_lio_otto := true |}.
 Definition h2 : dialect := {|
   d_int32 := m_to_int32; d_uint32 := m_to_uint32; d_uint16 := m_to_uint16; d_integer := m_to_integer; d_div := m_divide;
-  d_str2num := overaccept; d_strlt := m_str_lt; d_otto_cmp := true; d_lio_otto := true |}.
+  d_str2num := overaccept; d_strlt := m_str_lt; d_otto_cmp := true |}.
 
 Definition oobs_eqb := option_eqb obs_eqb.
 
 Definition class_of (ps vs : list value) (e : expr) : Z :=
-  if negb (oobs_eqb (run hl ps vs e) (run spec_d ps vs e)) then 11
-  else if negb (oobs_eqb (run h2 ps vs e) (run spec_d ps vs e)) then 2 else 3.
+  if negb (oobs_eqb (run h2 ps vs e) (run spec_d ps vs e)) then 2 else 3.
 
 Definition verdict (c : case) : Z * Z :=
   match c with
